@@ -146,7 +146,10 @@ def run(ctx):
                 n_y += 1
                 start = max([x.seq for x in ops if x.kind in ('loop_iter', 'iter_next') and x.seq < o.seq] or [-1])
                 seg = [x for x in ops if start < x.seq < o.seq and x.kind == 'test']
-                ok = any('do_fill' in txt(x.node) or 'fill' in txt(x.node) for x in seg)
+                # either the fill flag was consulted, or the chunk was found to be full (`len < size` false: nothing to pad)
+                ok = any('fill' in txt(x.node) for x in seg) or \
+                    any(isinstance(x.node, ast.Compare) and 'size' in txt(x.node) and isinstance(x.node.ops[0], (ast.Lt, ast.Gt, ast.GtE, ast.LtE, ast.Eq, ast.NotEq))
+                        and x.info is (False if isinstance(x.node.ops[0], (ast.Lt, ast.NotEq)) else True) for x in seg)
                 ctx.ob('T7.fill', ci.fq, 'every chunk is yielded only after the fill flag was consulted for it (all source types padded alike)',
                        ok, loc=loc(ci, o.node), path=p.describe() if not ok else None)
     if n_y == 0:
